@@ -240,6 +240,8 @@ pub(crate) fn gcd_in_place(
     let (mut x, mut y, mut swapped) = (lhs, rhs, false);
 
     while y.len() > 2 {
+        #[cfg(dashu_verif)]
+        dashu_base::verif::tick(dashu_base::verif::LOOP_LEHMER);
         // Guess the coefficients based on the highest words
         let (a, b, c, d) = if x.len() < MIN_DWORD_GUESS_LEN {
             let (x_hi, y_hi) = highest_word_normalized(x, y);
@@ -366,6 +368,8 @@ pub fn gcd_ext_in_place(
 
     // loop, reduce x, y until the smaller one (y) fits in a single word
     while y.len() > 1 {
+        #[cfg(dashu_verif)]
+        dashu_base::verif::tick(dashu_base::verif::LOOP_LEHMER);
         // Guess the coefficients based on the highest words
         let (a, b, c, d) = if x.len() < MIN_DWORD_GUESS_LEN {
             let (x_hi, y_hi) = highest_word_normalized(x, y);
